@@ -343,6 +343,19 @@ func c19RenderResponse(r *http.Response) string {
 		r.StatusCode, r.Proto, r.ContentLength, c19RenderHeader(r.Header), c19RenderKeys(r.Trailer))
 }
 
+// what parseHeaders itself must report for a well-formed section
+func c19ModelParsed(view c19View) string {
+	h := c19HeaderOf(view, false, true)
+	return fmt.Sprintf("path=%q method=%q authority=%q scheme=%q protocol=%q status=%q cl=%d header=%s",
+		view.Pseudo[":path"], view.Pseudo[":method"], view.Pseudo[":authority"], view.Pseudo[":scheme"], view.Pseudo[":protocol"], view.Pseudo[":status"],
+		c19ModelCL(view), c19RenderHeader(h))
+}
+
+func c19RenderParsed(h header) string {
+	return fmt.Sprintf("path=%q method=%q authority=%q scheme=%q protocol=%q status=%q cl=%d header=%s",
+		h.Path, h.Method, h.Authority, h.Scheme, h.Protocol, h.Status, h.ContentLength, c19RenderHeader(h.Headers))
+}
+
 func c19ModelTrailer(view c19View) string {
 	return c19RenderHeader(c19HeaderOf(view, false, false))
 }
